@@ -209,9 +209,10 @@ structure BState where
   curSizes : List Nat
   curIdx : List Nat
 
-/-- util.py L558-564, one iteration for trajectory `i` of length `l`. -/
+/-- util.py L558-565, one iteration for trajectory `i` of length `l`
+(`if not batch_sizes[-1] or sum(batch_sizes[-1]) + l < batch_size`). -/
 def batchStep (batchSize : Nat) (s : BState) (i l : Nat) : BState :=
-  if s.curSizes.sum + l < batchSize then
+  if s.curSizes = [] ∨ s.curSizes.sum + l < batchSize then
     { s with curSizes := s.curSizes ++ [l], curIdx := s.curIdx ++ [i] }
   else
     { done := s.done ++ [s.curIdx], curSizes := [l], curIdx := [i] }
@@ -233,7 +234,8 @@ def batchFrames (lens : List Nat) (batch : List Nat) : List Nat :=
   (batch.map fun t => (List.range (lens.getD t 0)).map fun j => startOf lens t + j).flatten
 
 /-- util.py L604-638 for one batch: load, assign, `partition_list` by the batch's lengths.
-An empty batch makes `load_as_concatenated` raise IndexError (`args[0]` of an empty list). -/
+An empty batch would make `load_as_concatenated` raise IndexError (`args[0]` of an empty list);
+`compute_batches` never produces one for a non-empty `lengths`. -/
 def reassignBatch (D : Nat → Nat → Rat) (lens : List Nat) (k : Nat) (hasXyz : Bool)
     (batch : List Nat) : Except Err (List (List (Nat × ERat))) :=
   match batch with
